@@ -7,6 +7,7 @@ import (
 	"reflect"
 	"strings"
 	"testing"
+	"time"
 
 	"github.com/ipfs/go-cid"
 	ipld "github.com/ipld/go-ipld-prime"
@@ -433,8 +434,26 @@ func c19HistCheck(c C19HistCase, rec *evid.Rec) error {
 				val.Ent{K: "I", V: val.MkMap(val.Ent{K: "X", V: val.MkInt(in.X)}, val.Ent{K: "S", V: val.MkString(in.S)})})
 		}
 		sameType[op.Type%3]++
-		err := evid.Guard(where, func() error {
+		err, hung := withWatchdog(where, 20*time.Second, func() error {
 			switch op.Kind {
+			case "refused-infer":
+				// a Go type inference documents it cannot handle: it refuses by panicking; whatever it does,
+				// the calls that follow must be unaffected (and must not hang)
+				func() {
+					defer func() { _ = recover() }()
+					switch op.Seed % 3 {
+					case 0:
+						_ = bindnode.Wrap(&struct{ C complex128 }{}, nil)
+					case 1:
+						_ = bindnode.Prototype((*struct {
+							S string
+							F func()
+						})(nil), nil)
+					default:
+						_, _ = ipld.Marshal(dagcbor.Encode, &struct{ Ch chan int }{}, nil)
+					}
+				}()
+				return nil
 			case "wrap-infer", "wrap-explicit":
 				var st schema.Type
 				if op.Kind == "wrap-explicit" {
@@ -481,6 +500,9 @@ func c19HistCheck(c C19HistCase, rec *evid.Rec) error {
 			}
 			return nil
 		})
+		if hung {
+			return fmt.Errorf("%s: %v (a binding call after an earlier one in this process)", where, err)
+		}
 		if err != nil {
 			return fmt.Errorf("%s: every binding call in a history must succeed with equivalent results: %w", where, err)
 		}
@@ -501,12 +523,12 @@ func c19HistCheck(c C19HistCase, rec *evid.Rec) error {
 
 var c19Hist = evid.Part[C19HistCase]{
 	Prop: "C19", Name: "histories", Quick: 400, Thorough: 40000,
-	Rule: "history of ≤12 binding calls (Wrap with inferred schema, Prototype with inferred schema, Wrap with an explicit schema, ipld.Marshal and ipld.Unmarshal with a nil schema) over three named Go struct types that share nested named types and slice types, in one process; every call must succeed and read as the Go value; non-trivial = ≥2 calls on the same named type; distinct by history",
+	Rule: "history of ≤12 binding calls (Wrap with inferred schema, Prototype with inferred schema, Wrap with an explicit schema, ipld.Marshal and ipld.Unmarshal with a nil schema, and calls with Go types that inference refuses) over three named Go struct types that share nested named types and slice types, in one process; every call must succeed and read as the Go value; non-trivial = ≥2 calls on the same named type; distinct by history",
 	Gen: func(t *rapid.T) C19HistCase {
 		n := rapid.IntRange(1, 12).Draw(t, "n")
 		var c C19HistCase
 		for i := 0; i < n; i++ {
-			c.Ops = append(c.Ops, C19HistOp{Kind: rapid.SampledFrom([]string{"wrap-infer", "proto-infer", "wrap-explicit", "marshal-infer", "unmarshal-infer"}).Draw(t, "kind"),
+			c.Ops = append(c.Ops, C19HistOp{Kind: rapid.SampledFrom([]string{"wrap-infer", "proto-infer", "wrap-explicit", "marshal-infer", "unmarshal-infer", "refused-infer"}).Draw(t, "kind"),
 				Type: rapid.IntRange(0, 2).Draw(t, "type"), Seed: rapid.IntRange(0, 20).Draw(t, "seed")})
 		}
 		return c
